@@ -7,6 +7,7 @@ import Model.C08.Num
 import Model.C08.Parse
 import Model.C08.Core
 import Model.C08.Verify
+import Model.C08.Btclib
 import Generated.Script
 open Btc Btc.Script
 
@@ -174,6 +175,17 @@ def handleC08 : List String → String
         renderUnit (Core.verifyScript env ss pk wit) (op == "verifyx")
       | _, _, _, _, _, _, _ => "bad-op"
     else "bad-op"
+  -- the btclib-shaped model of `verify_script` (final=False): bteval <base|v0> <flags> <script> <stack> <locktime> <sequence> <version>
+  | ["bteval", sv, flags, script, stack, lockTime, sequence, version] =>
+    match parseFlags flags, fromHex? script, parseHexList stack, lockTime.toNat?, sequence.toNat?, version.toNat? with
+    | some fl, some sc, some st, some lt, some sq, some ver =>
+      let cx : Btclib.Ctx := { flags := fl, segwit := sv == "v0", hashes := hashes, txLockTime := lt, txSequence := sq,
+                               txVersion := ver }
+      match Btclib.eval cx sc st.reverse with
+      | .ok out => "ok " ++ hexList out.reverse
+      | .refused => "err script"
+      | .unsupported => "unsupported"
+    | _, _, _, _, _, _ => "bad-op"
   | _ => "bad-op"
 
 def handle (toks : List String) : String :=
